@@ -398,11 +398,11 @@ HIST = {"entries": None, "ref": None}
 
 
 def ref_key(ev):
-    return (ev["act"], ev["pe"], ev["proj"], ev["eng"], bool(ev["project"]), ev["var"])
+    return (ev["act"], ev["pe"], ev["proj"], ev["eng"], bool(ev["project"]), ev["var"], bool(ev.get("ri", True)))
 
 
 def _mk_das(g):
-    return {"ta": tracer(g, "ta", 1000), "tb": tracer(g, "tb", 2000)}
+    return {"ta": tracer(g, "ta", 1000), "tb": tracer(g, "tb", 2000), "tc": tracer(g, "tc", 3000)}
 
 
 def obj_digest(obj, kind, owner=None):
